@@ -34,6 +34,7 @@ def shards(tier, seed):
         for L in Ls:
             for kind in ("tensor", "trailing", "tuple"):
                 out.append(dict(name="A%d/L%d/%s" % (A, L, kind), A=A, L=L, kind=kind, weight=A * L * L * L))
+    out.append(dict(name="history", history=True, A=4, L=4, kind="tensor", weight=2000))
     return out
 
 
@@ -66,9 +67,18 @@ def _windows(L, tier):
 
 
 def run_shard(sh, tier, seed):
-    from tangermeme.ism import saturation_mutagenesis
     rec = Recorder(PID, sh["name"])
-    A, L, kind = sh["A"], sh["L"], sh["kind"]
+    if sh.get("history"):
+        # one process, alternating alphabet sizes / lengths / output kinds on the same windows: nothing may be carried over between calls
+        for (A, L, kind) in ((4, 4, "tensor"), (5, 4, "tensor"), (3, 4, "tuple"), (5, 4, "trailing"), (2, 4, "tensor"), (4, 5, "tuple"), (4, 4, "tensor")):
+            run_one(rec, A, L, kind, "quick", seed)
+        return rec.result()
+    run_one(rec, sh["A"], sh["L"], sh["kind"], tier, seed)
+    return rec.result()
+
+
+def run_one(rec, A, L, kind, tier, seed):
+    from tangermeme.ism import saturation_mutagenesis
     model = Model(A, L, kind, seed)
     rs = numpy.random.RandomState(11 + seed)
     for N in (1, 2):
@@ -177,7 +187,6 @@ def run_shard(sh, tier, seed):
                             continue
                         rec.observe(float(attr.double().sum()))
     rec.sample(dict(A=A, L=L, kind=kind, windows=len(_windows(L, tier)), N="1,2", args="off/on"))
-    return rec.result()
 
 
 def replay(v):
